@@ -214,13 +214,29 @@ def gen_deny(rng):
     kinds = ['none', 'background'] + (['privonly', 'readonly_user'] if not priv else ['priv_readonly']) + ['readonly']
     deny_kind = rng.choice(kinds)
     shape = rng.choice(['32B', '256B-sub', '2KB'])
+    pc_load = rng.random() < 0.3
     for _ in range(60):
         w = ldst_word(rng, thumb)
+        if pc_load:
+            # loads into the PC: every word of the data page holds the address of the done marker, so 'LDM ..{..,pc}' and
+            # 'LDR pc,[..]' end the program wherever they load from
+            if not thumb:
+                if (w >> 25) & 7 == 4:
+                    w |= 1 << 20 | 1 << 15
+                elif (w >> 26) & 3 == 1:
+                    w = (w | 1 << 20 | 0xF << 12) & ~(1 << 22)
+            elif w > 0xFFFF and (w >> 16) & 0xFE40 == 0xE800:
+                w = (w | 1 << 20 | 0x8000) & ~0x4000
+            elif w <= 0xFFFF and (w & 0xFE00) == 0xBC00:
+                w |= 0x100
         D = G.DATA + 0x400
         regs = [rng.choice([D + 8 * rng.randrange(-8, 8), D + 4 * rng.randrange(-16, 16), rng.randrange(0, 40), 4 * rng.randrange(0, 16)]) for _ in range(15)]
         regs[13] = D + 8 * rng.randrange(-4, 8)
         mpu = base_mpu(rng, deny_kind, shape)
         core, meta = _one_shot_case(rng, w if not thumb or w > 0xFFFF else w, thumb, mode, te, regs, mpu)
+        if pc_load:
+            done = core['done_pc'] | (1 if thumb else 0)
+            core['devices'][2]['fill'] = done.to_bytes(4, 'little').hex()
         info = probe_clean(core, meta)
         if info is not None:
             break
